@@ -234,6 +234,7 @@ pub struct Gen<'a> {
     pub slave_only_now: bool,
     pub bmca_since_slave_only: bool,
     pub meas: MeasOracle,
+    pub frames: super::oracle_frames::FrameOracle,
     pub ex: InstExec,
     pub out: &'a mut Out,
     pub w: World,
@@ -252,6 +253,10 @@ impl<'a> Gen<'a> {
             self.out.oracle(prop, &sig, &detail);
         }
         self.role_oracle(&line, &obs);
+        {
+            let before: Vec<String> = self.w.ports.iter().map(|p| p.state.clone()).collect();
+            self.frames.check(self.out, &before, &line, &obs);
+        }
         let kind: String = {
             let ws: Vec<&str> = line.split_whitespace().collect();
             if ws[0].starts_with('P') && ws[0] != "PORT" {
@@ -1045,6 +1050,190 @@ impl<'a> Gen<'a> {
     }
 }
 
+pub fn new_gen(out: &mut Out) -> Gen<'_> {
+    Gen {
+        slave_only_from_start: false,
+        slave_only_now: false,
+        bmca_since_slave_only: false,
+        frames: Default::default(),
+        meas: MeasOracle::default(),
+        ex: InstExec::new(),
+        out,
+        w: World { own_clock: [0; 8], own_sdo: 0, own_domain: 0, masters: vec![], ports: vec![], parent: String::new(), now: 0, path_trace: false, slave_only: false },
+        ops_in_scenario: 0,
+        dead: false,
+        on_obs: None,
+    }
+}
+
+impl<'a> Gen<'a> {
+    /// interesting transmit / receive timestamps over the PTP range (U96F32 bits)
+    fn edge_time(&mut self, rng: &Prng) -> u128 {
+        let t = match rng.below(10) {
+            0 => 0,
+            1 => rng.below(1 << 32) as u128,                                  // below one nanosecond
+            2 => (rng.log_u128(48) % (1u128 << 48)) * SEC + rng.log_u128(60) % SEC, // anywhere in the 48-bit seconds range
+            3 => ((1u128 << 48) - 1) * SEC + (SEC - 1 - rng.below(1 << 20) as u128), // just below 2^48 s
+            4 => (rng.below(1 << 31) as u128) * SEC + 999_999_999 * F32 + rng.below(1 << 32) as u128, // nanosecond carry
+            5 => (rng.below(1 << 31) as u128) * SEC + ((rng.below(1_000_000_000) as u128) << 32) + *rng.pick(&[0u128, 1, 0xffff, 0x1_0000, 0xffff_ffff, 0x8000_0000]),
+            _ => self.w.t(rng),
+        };
+        t
+    }
+
+    /// make port k Master if the configuration allows it (announce receipt timeout)
+    fn become_master(&mut self, k: usize) -> bool {
+        self.emit(format!("P{k} TMR rcpt"));
+        !self.dead && self.w.ports[k - 1].state == "Master"
+    }
+
+    /// the pending timestamp context `kind:` of port k, if any (removed from the pending list)
+    fn take_ctx(&mut self, k: usize, kind: &str) -> Option<String> {
+        let pv = &mut self.w.ports[k - 1];
+        let i = pv.pending_ctx.iter().position(|c| c.starts_with(kind))?;
+        Some(pv.pending_ctx.remove(i))
+    }
+
+    fn txts_for(&mut self, k: usize, ctx: &str, t: u128) {
+        let parts: Vec<&str> = ctx.splitn(3, ':').collect();
+        let op = match parts[0] {
+            "pdresp" if parts.len() == 3 => format!("P{k} TXTS pdresp {} {} {}", parts[1], parts[2], t),
+            kind if parts.len() >= 2 => format!("P{k} TXTS {kind} {} {}", parts[1], t),
+            _ => return,
+        };
+        self.emit(op);
+    }
+
+    /// master-side traffic on port k: Sync + transmit timestamp, Delay_Req, Pdelay_Req + transmit timestamp, Announce
+    pub fn master_step(&mut self, rng: &Prng, k: usize) {
+        match rng.below(20) {
+            0..=5 => {
+                self.emit(format!("P{k} TMR sync"));
+                if self.dead {
+                    return;
+                }
+                if let Some(ctx) = self.take_ctx(k, "sync:") {
+                    let t = self.edge_time(rng);
+                    match rng.below(10) {
+                        0 => {}                                   // timestamp lost
+                        1 => {
+                            // duplicate report
+                            self.txts_for(k, &ctx, t);
+                            if !self.dead {
+                                self.txts_for(k, &ctx, t);
+                            }
+                        }
+                        _ => self.txts_for(k, &ctx, t),
+                    }
+                }
+            }
+            6..=10 => {
+                // Delay_Req from some slave
+                let t = self.edge_time(rng);
+                let clock = *rng.pick(&CLOCKS[2..]);
+                let mut f = self.base_frame(rng, 0x1, clock, rng.next_u64() as u16, rng.next_u64() as u16).with_ts_body(0, 0);
+                f.correction = match rng.below(8) {
+                    0 => 0,
+                    1 => -(rng.log_u128(62) as i64),
+                    2 => rng.log_u128(62) as i64,
+                    3 => i64::MAX - rng.below(70000) as i64,
+                    4 => i64::MIN + rng.below(70000) as i64,
+                    _ => (rng.log_u128(46) as i64) * if rng.chance(1, 2) { 1 } else { -1 },
+                };
+                f.flags = [rng.next_u64() as u8 & 0x67, rng.next_u64() as u8 & 0x7f];
+                f.log_interval = rng.next_u64() as i8;
+                if rng.chance(1, 16) {
+                    self.foreignize(rng, &mut f);
+                }
+                self.out.count("gen.delayreq");
+                self.emit(format!("P{k} EVT {} {}", hex(&f.bytes()), t));
+            }
+            11..=14 => {
+                let t = self.edge_time(rng);
+                let clock = *rng.pick(&CLOCKS[2..]);
+                let mut f = self.base_frame(rng, 0x2, clock, rng.next_u64() as u16, rng.next_u64() as u16).with_ts_body(0, 0);
+                f.correction = Self::correction(rng);
+                self.out.count("gen.pdelayreq");
+                self.emit(format!("P{k} EVT {} {}", hex(&f.bytes()), t));
+                if self.dead {
+                    return;
+                }
+                if let Some(ctx) = self.take_ctx(k, "pdresp:") {
+                    if rng.chance(7, 8) {
+                        let t2 = self.edge_time(rng);
+                        self.txts_for(k, &ctx, t2);
+                    }
+                }
+            }
+            15..=17 => {
+                self.emit(format!("P{k} TMR ann 1"));
+            }
+            18 => {
+                // a stale / invented context
+                let t = self.edge_time(rng);
+                let id = rng.next_u64() as u16;
+                self.emit(format!("P{k} TXTS sync {id} {t}"));
+            }
+            _ => self.step(rng),
+        }
+    }
+}
+
+/// C10: master-side stream. Sequence number wrap-around runs plus dense master traffic with edge timestamps.
+pub fn generate_master(out: &mut Out, rng: &Prng, thorough: bool) {
+    let mut g = new_gen(out);
+    // wrap-around runs: 66 000 emissions of one type from one port
+    let kinds: &[&str] = if thorough { &["sync", "ann", "delay"] } else { &["sync"] };
+    for kind in kinds {
+        let mut tries = 0;
+        loop {
+            g.start_scenario(rng);
+            tries += 1;
+            let ok = match *kind {
+                "delay" => g.w.ports[0].p2p,
+                _ => !g.w.slave_only && g.become_master(1),
+            };
+            if ok || tries > 200 {
+                break;
+            }
+        }
+        for n in 0..66_000u32 {
+            if g.dead {
+                break;
+            }
+            match *kind {
+                "ann" => g.emit("P1 TMR ann 1".to_string()),
+                k => g.emit(format!("P1 TMR {k}")),
+            };
+            if *kind == "sync" && n % 97 == 0 && !g.dead {
+                if let Some(ctx) = g.take_ctx(1, "sync:") {
+                    let t = g.edge_time(rng);
+                    g.txts_for(1, &ctx, t);
+                }
+            }
+            g.w.ports[0].pending_ctx.clear();
+        }
+        g.out.count(&format!("c10.wrap-run.{kind}"));
+    }
+    let scenarios = if thorough { 4000 } else { 250 };
+    for _ in 0..scenarios {
+        g.start_scenario(rng);
+        let np = g.w.ports.len();
+        let k = 1 + rng.below(np as u64) as usize;
+        if !g.w.slave_only {
+            g.become_master(k);
+        }
+        let len = 20 + rng.below(if thorough { 200 } else { 80 }) as usize;
+        while !g.dead && g.ops_in_scenario < len {
+            let kk = if rng.chance(4, 5) { k } else { 1 + rng.below(np as u64) as usize };
+            g.master_step(rng, kk);
+        }
+        g.out.count("scenario");
+    }
+    let n = g.frames.frames_checked;
+    g.out.add("c10.frames-checked", n);
+}
+
 /// the mixed stream used by most port-level properties
 pub fn generate(out: &mut Out, rng: &Prng, thorough: bool) {
     let scenarios = if thorough { 6000 } else { 350 };
@@ -1052,6 +1241,7 @@ pub fn generate(out: &mut Out, rng: &Prng, thorough: bool) {
         slave_only_from_start: false,
         slave_only_now: false,
         bmca_since_slave_only: false,
+        frames: Default::default(),
         meas: MeasOracle::default(),
         ex: InstExec::new(),
         out,
